@@ -2,7 +2,7 @@
 from facts import AnalysisBroken
 from model import (norm_cond, dstr, strip, fact_holds, mentions_field, mentions_call, mentions_var,
                    const_value, walk)
-from rules import (deep_resolve, lastname, guarded, calls_to, who_may_call, dominated_by, full_range, loops_over,
+from rules import (local_container_pushes, deep_resolve, lastname, guarded, calls_to, who_may_call, dominated_by, full_range, loops_over,
                    every_iteration_passes, basename, origins, skip_conditions_exact,
                    reached_only_via)
 
@@ -126,6 +126,13 @@ def run(ctx):
     for f, e in calls_to(prog, 'Cleaner::Remove'):
         n += 1
         os_ = origins(f, e['args'][0])
+        # collect-then-act: paths gathered in a local container and removed in a second loop are judged where they are
+        # selected (the push), with the facts that hold there
+        sel = [e]
+        flows = [local_container_pushes(f, o) for o in os_]
+        if os_ and all(flows):
+            sel = [pe for fl in flows for pe, pv in fl]
+            os_ = [o2 for fl in flows for pe, pv in fl for o2 in origins(f, pv)]
         kinds = sorted({classify_origin(o) for o in os_})
         ok = bool(kinds) and all(k in ('output-path', 'depfile', 'rspfile', 'log-key') for k in kinds)
         ctx.check('C18.V1', ok, f.name, 'Remove-arg:%s' % ','.join(kinds), f.where(e),
@@ -170,7 +177,7 @@ def run(ctx):
                                 kinds |= pk
                     if kinds:
                         alive_kinds |= kinds
-                        r = f.find_path(None, lambda x: x is e, from_succ=s, init_facts=frozenset((k, p) for k, p, a in f.edge_facts(bid, i, all=True)),
+                        r = f.find_path(None, lambda x: any(x is se for se in sel), from_succ=s, init_facts=frozenset((k, p) for k, p, a in f.edge_facts(bid, i, all=True)),
                                         is_blocker=lambda x: x['k'] == 'call' and x.get('name') == 'State::LookupNode')
                         if r is not None:
                             bad = (sorted(kinds), r[0])
